@@ -137,7 +137,7 @@ func (store *ModuleStore) NewModule(ctx Context, impl *ModuleImpl) (*Module, err
 	}
 	m := &Module{
 		ModuleImpl: impl,
-		Globals:    impl.Globals.Copy(),
+		Globals:    copyGlobals(impl.Globals),
 		Context:    ctx,
 	}
 	// Insert the methods into the module dictionary
@@ -166,6 +166,23 @@ func (store *ModuleStore) NewModule(ctx Context, impl *ModuleImpl) (*Module, err
 	}
 	// fmt.Printf("Registered module %q\n", moduleName)
 	return m, nil
+}
+
+// copyGlobals copies the globals of a module implementation for a new
+// module instance.  Lists and dicts are copied too so that instances of
+// the module in different contexts don't share them.
+func copyGlobals(globals StringDict) StringDict {
+	out := make(StringDict, len(globals))
+	for k, v := range globals {
+		switch x := v.(type) {
+		case *List:
+			v = x.Copy()
+		case StringDict:
+			v = x.Copy()
+		}
+		out[k] = v
+	}
+	return out
 }
 
 // Gets a module
